@@ -30,6 +30,7 @@ import (
 	"github.com/containerd/ttrpc"
 	"github.com/sirupsen/logrus"
 	"google.golang.org/grpc/status"
+	"google.golang.org/protobuf/proto"
 )
 
 // ---------------------------------------------------------------------------------------
@@ -209,7 +210,8 @@ func MemFor(name, req string) int64 {
 	for _, c := range []byte(name + "|" + req) {
 		h = (h*1099511 + int64(c)) % 1000000007
 	}
-	return 4096 + h
+	// always the same number of digits and of varint bytes, so that exchanges have a fixed length
+	return 1<<28 + h%(1<<27)
 }
 
 func (p *Plugin) updatesFor(ev int, req string) []*api.ContainerUpdate {
@@ -570,7 +572,8 @@ func (r *Runtime) Close() {
 // Result is the canonical observation of one request as its caller saw it.
 type Result struct {
 	// Err: "" | "veto" (an rpc status error, as a handler error arrives) | "conflict" (result
-	// collection refused the combination) | "closed" | "protocol" | "timeout" | "other"
+	// collection refused the combination) | "closed" | "protocol" | "timeout" | "undecodable"
+	// (a protobuf decoding error) | "trunk" | "canceled" | "other"
 	Err string `json:"err"`
 	// ErrText is kept for the `why` line only; never compared.
 	ErrText string `json:"errtext"`
@@ -604,14 +607,18 @@ func ErrKind(err error) string {
 	if _, ok := status.FromError(err); ok {
 		return "veto"
 	}
+	if errors.Is(err, proto.Error) {
+		// the reply (envelope or payload) did not decode
+		return "undecodable"
+	}
 	t := err.Error()
 	switch {
 	case strings.Contains(t, "both tried to set"):
 		return "conflict"
-	case strings.Contains(t, "proto:") || strings.Contains(t, "unmarshal"):
-		return "unmarshal"
 	case strings.Contains(t, "trunk"):
 		return "trunk"
+	case errors.Is(err, context.Canceled):
+		return "canceled"
 	}
 	return "other"
 }
